@@ -156,9 +156,11 @@ def fix(
     should_fix = True
     if not fix_even_unparsable:
         # If fix_even_unparsable wasn't set, check for templating or parse
-        # errors and suppress fixing if there were any.
-        _, num_filtered_errors = result.count_tmp_prs_errors()
-        if num_filtered_errors > 0:
+        # errors and suppress fixing if there were any. NOTE: As on the
+        # command line, this includes errors which have been suppressed
+        # (e.g. by `noqa`), because we can't guarantee the fixes are valid.
+        total_errors, _ = result.count_tmp_prs_errors()
+        if total_errors > 0:
             should_fix = False
     if should_fix:
         sql = result.paths[0].files[0].fix_string()[0]
